@@ -244,6 +244,7 @@ def run(ck, P):
                 nown += 1
                 ck.analysed(f)
                 bad = None
+                twice = None
                 n = 0
                 aliases = {var}
                 allocd = {S(d.lhs) for d in f.events() if d.kind in ("decl", "assign") and d.rhs is not None and d.lhs is not None
@@ -292,6 +293,10 @@ def run(ck, P):
                                 if res and e.callee in ("m_bst_insert", "m_map_put"):
                                     rv_ = S(res[0].lhs)
                                     failed = a.get(rv_) is True or a.get("(%s == 0)" % rv_) is False
+                                if not failed and e.callee in ("m_bst_insert", "m_map_put", "m_queue_enqueue", "m_list_insert", "m_stack_push"):
+                                    # the result tested in place: `if (m_map_put(…) == 0) { … return 0; }`
+                                    cs_ = S(e.e)
+                                    failed = a.get(cs_) is True or a.get("(%s == 0)" % cs_) is False or a.get("(%s != 0)" % cs_) is True
                                 if failed:
                                     continue
                                 done = "consumed by %s" % e.callee
@@ -309,6 +314,50 @@ def run(ck, P):
                     if done is None:
                         bad = path
                         break
+                # released once: after a container took the object over (an insert that succeeded on this path), this function does not
+                # release it as well.  Own walk over the pruned paths: a result variable that is assigned again (`ret = insert(); if (!ret)
+                # { ret = poll(); if (ret) …`) starts a new test.
+                if strip(ev.rhs).get("callee") != "m_mem_ref":
+                    for path in f.paths(loop_fragments=False):
+                        given, pend = None, None
+                        started = False
+                        for (bid_, at_) in path:
+                            for e in f.blocks[bid_].events:
+                                if e is ev:
+                                    started = True
+                                    continue
+                                if not started:
+                                    continue
+                                if e.kind in ("decl", "assign") and e.lhs is not None and S(e.lhs) == var and (e.kind == "decl" or e.e.get("op") == "="):
+                                    started = False
+                                    given = pend = None
+                                    continue
+                                if pend is not None and e.kind in ("decl", "assign", "incdec") and e.lhs is not None and S(e.lhs) == pend[1] \
+                                        and not (e.rhs is not None and strip(e.rhs) is strip(pend[0].e)) \
+                                        and not (e.rhs is not None and strip(e.rhs).get("callee") == pend[0].callee and e.block.id == pend[0].block.id):
+                                    given, pend = pend[0], None      # the result was overwritten untested: the insert stands
+                                if e.kind == "call" and e.callee in ("m_bst_insert", "m_map_put", "m_queue_enqueue", "m_list_insert", "m_stack_push") \
+                                        and len(e.args) > CONSUMERS.get(e.callee, 1) and S(e.args[CONSUMERS.get(e.callee, 1)]) == var and given is None:
+                                    res_ = [d for d in f.blocks[bid_].events if d.kind in ("decl", "assign") and d.rhs is not None and
+                                            (strip(d.rhs) is strip(e.e) or (strip(d.rhs).get("callee") == e.callee and d.idx == e.idx + 1))]
+                                    pend = (e, S(res_[0].lhs) if res_ else S(e.e))
+                                    continue
+                                if given is not None and e.kind == "call" and e.callee in RELEASE and S(e.args[0]).lstrip("&") == var and twice is None:
+                                    twice = (path, e, given)
+                            if pend is not None:
+                                for (a_, p_) in at_:
+                                    nm_ = pend[1]
+                                    if a_ == nm_ or a_ == "(%s == 0)" % nm_ or a_ == "(%s != 0)" % nm_:
+                                        zero = (a_ == nm_ and p_ is False) or (a_ == "(%s == 0)" % nm_ and p_ is True) or (a_ == "(%s != 0)" % nm_ and p_ is False)
+                                        given, pend = (pend[0] if zero else None), None
+                                        break
+                        if twice is not None:
+                            break
+                if twice is not None:
+                    ck.ob("C04.3-OWN", f.site("own %s released once" % var), False,
+                          "'%s' was handed to %s at line %d (the container owns it from there, and releases it when the element is removed) and is released "
+                          "again at line %d on the same path: the object is freed while the container — or the removal that just ran — still refers to it"
+                          % (var, twice[2].callee, twice[2].line, twice[1].line), path=rules.fmt_path(f, twice[0]))
                 ck.ob("C04.3-OWN", f.site("own %s=%s" % (var, strip(ev.rhs)["callee"])), bad is None and n > 0,
                       "%d path(s): the fresh object is stored, consumed, returned or released" % n if bad is None else
                       "fresh object '%s' (line %d) is dropped on this path without being stored or released: leak" % (var, ev.line),
